@@ -161,6 +161,17 @@ func init() {
 					pinned = e.M.First + int64(c.Rng.Intn(int(n-e.M.First+1)))
 					if it, err := e.T.GetImmutable(pinned); err == nil {
 						exp, _ = it.Export()
+						if exp != nil && c.Rng.Intn(2) == 0 {
+							// a second export of the same version that is closed twice (defer + explicit
+							// Close, documented as safe) must not release the first one's hold
+							if it2, err := e.T.GetImmutable(pinned); err == nil {
+								if exp2, err := it2.Export(); err == nil {
+									exp2.Close()
+									exp2.Close()
+									c.Obs("double_closed_second_export", 1)
+								}
+							}
+						}
 					}
 				}
 				if exp != nil {
